@@ -11,6 +11,7 @@ THEOREMS = [(M, "NQ.C02." + n) for n in [
     "core_table_pinned", "vanilla_table_pinned", "nv_table_pinned", "reids_table_pinned",
     "layout_probes_match", "shapes_fit"]]
 TRANSLATORS = ["instr_table"]
+LEANCHECK_EXTRA = ["NetqasmVerif.Props.WireObligations"]
 LEVEL_TEXT = "Lean theorems: whenever an instruction encodes, its bytes equal an independently written 7-byte spec encoding (opcode, operands in declared order, register byte = bank | idx<<2, LE two's complement, zero padding) for ALL operand values; subroutine header lemma; live tables equal the pinned wire table and live byte layout equals the model's (kernel-decided from probes)."
 LEVEL_NOTE = 'Trusted: Lean kernel; the pinned table in Model/WireSpec.lean (transcribed from the pinned tree); translator + harness; ctypes bitwise linearity.'
 TECHNIQUE = 'Lean 4 proof + kernel-decided generated obligations (pinned table, single-bit layout probes) + differential correspondence'
